@@ -63,7 +63,17 @@ fn strategy() -> BoxedStrategy<Case> {
             let start = prop_oneof![4 => Just(0u64), 1 => gen::position()];
             (Just(sess), proptest::collection::vec(gen::msg(600), 0..=6), proptest::collection::vec(export_req(nh), 0..=3), start)
         })
-        .prop_map(|(sess, msgs, exports, start)| Case::Session { sess, msgs, exports, start })
+        .prop_map(|(mut sess, msgs, exports, start)| {
+            // RFC 9180 SetupS is defined for every ikmE, including the one that reproduces the
+            // recipient's or the sender's own key pair (enc == pkR / pkS)
+            let nsk = sess.suite.kem.nsk();
+            match sess.stream[159] % 40 {
+                1 | 2 => sess.ikm_r = Bytes(sess.stream[..nsk].to_vec()),
+                3 => sess.ikm_s = Bytes(sess.stream[..nsk].to_vec()),
+                _ => {}
+            }
+            Case::Session { sess, msgs, exports, start }
+        })
         .boxed()
 }
 
@@ -316,9 +326,21 @@ impl Property for P {
                 high.push(Case::Session { sess: gen::cell_session(s, (k as u8 + pos as u8 % 4) % 4, 22), msgs: gen::fixed_msgs(22), exports: vec![], start: pos.saturating_sub(1) });
             }
         }
+        // ephemeral keying material equal to the recipient's (and sender's) ikm, per KEM x mode
+        let mut same = Vec::new();
+        for kem in r::KemId::ALL {
+            for m in 0..4u8 {
+                let su = r::Suite { kem, kdf: kem.kdf(), aead: r::AeadId::ChaCha };
+                let mut a = gen::cell_session(su, m, 23);
+                a.ikm_r = Bytes(a.stream[..kem.nsk()].to_vec());
+                same.push(Case::Session { sess: a.clone(), msgs: gen::fixed_msgs(23), exports: vec![], start: 0 });
+                a.ikm_s = a.ikm_r.clone();
+                same.push(Case::Session { sess: a, msgs: gen::fixed_msgs(23), exports: vec![], start: 0 });
+            }
+        }
         let anchors: Vec<Case> = (0..vectors("anchors").len()).map(|i| Case::Vector { file: "anchors".into(), index: i }).collect();
         let golden: Vec<Case> = (0..vectors("golden").len()).map(|i| Case::Vector { file: "golden".into(), index: i }).collect();
-        vec![("rfc9180_anchors".into(), anchors), ("golden_vectors".into(), golden), ("suite_x_mode_cells".into(), cells), ("sequence_boundaries_x_aead".into(), high)]
+        vec![("rfc9180_anchors".into(), anchors), ("golden_vectors".into(), golden), ("suite_x_mode_cells".into(), cells), ("sequence_boundaries_x_aead".into(), high), ("ephemeral_ikm_equals_static_ikm".into(), same)]
     }
     fn check(&self, case: &Case, obs: &mut Obs) -> Verdict {
         match case {
